@@ -292,6 +292,13 @@ def token_spec(rng, idx):
         for _ in range(rng.randint(1, 3)):
             add_fn(ind + "  ", allow_overload=False)
 
+    if rng.random() < 0.5:
+        # a struct is a declaration too (bind(C) derived type in Fortran, struct in the C header)
+        over = {}
+        if rng.random() < 0.7:
+            (oc, of) = rng.choice(CF_DOMAIN)
+            over = {"c": oc, "fortran": of}
+        entries.append({"kind": "struct", "indent": "", "name": "Zq%dsta" % idx, "over": over})
     for _ in range(rng.randint(2, 5)):
         add_fn("")
     if rng.random() < 0.6:
@@ -338,6 +345,21 @@ def render_token_library(spec, wp, wl):
             stack.append((d, e["name"], base))
             tokens[e["name"]] = {"c": bool(base["c"]), "fortran": bool(base["fortran"]), "python": bool(base["python"]),
                                  "lua": False, "shape": e["what"], "lua_unsupported": True, "members": 0}
+            continue
+        if e["kind"] == "struct":
+            lines.append("- decl: struct %s {" % e["name"])
+            lines += ["          int ifield;", "          double dfield;", "        };"]
+            eff = dict(lf)
+            if e["over"]:
+                lines.append("  options:")
+                for k in LANGS:
+                    if k in e["over"]:
+                        lines.append("    wrap_%s: %s" % (k, e["over"][k]))
+                        eff[k] = e["over"][k]
+            if eff["fortran"] and not eff["c"]:
+                return None
+            tokens[e["name"]] = {"c": bool(eff["c"]), "fortran": bool(eff["fortran"]), "python": True, "lua": True,
+                                 "shape": "struct", "lua_unsupported": True, "members": 1}
             continue
         ind = e["indent"]
         depth = len(ind) // 2
@@ -412,7 +434,7 @@ def token_jobs(seeds, n):
             for t, eff in tokens.items():
                 e = {l: bool(eff[l]) for l in LANGS}
                 e["shape"] = eff["shape"]
-                if eff["shape"] in ("namespace", "class"):
+                if eff["shape"] in ("namespace", "class", "struct"):
                     # a namespace is a declaration too.  Only one direction is asserted: when it is off
                     # for a language itself and none of its members turns that language on, its name
                     # appears nowhere in that language's output (file names included).  What an "on"
@@ -420,6 +442,9 @@ def token_jobs(seeds, n):
                     for l in LANGS:
                         if e[l]:
                             e[l] = None
+                    if eff["shape"] == "struct":
+                        # only the Fortran side is asserted for a struct that is off for Fortran
+                        e["c"] = e["python"] = e["lua"] = None
                     if eff["shape"] == "class":
                         # the C utility header declares the capsule struct of every class that any
                         # language wraps (the other emitters are built on it): not asserted for C
@@ -548,7 +573,7 @@ class C15Engine(gcheck.GEngine):
                                                      "corpus/strings", "corpus/vectors", "corpus/clibrary",
                                                      "corpus/ownership", "corpus/namespace")][: t["sweep_libs"]]
         pats = ["single", "distinct", "py_lua_shared", "nested", "cf_only", "no_outdir", "log_apart", "relative",
-                "trailing_slash"]
+                "trailing_slash", "cwd_only"]
         sweep = family_jobs(self.seeds, len(sweep_bases) * len(pats), sweep_bases, patterns=pats,
                             label="c15sweep")
         self.sweep_space = len(sweep_bases) * len(pats) * len(FLAG_VECTORS)
